@@ -13,6 +13,7 @@ class BaseManager:
         self.rooms = {}  # self.rooms[namespace][room][sio_sid] = eio_sid
         self.eio_to_sid = {}
         self.callbacks = {}
+        self.ack_counters = {}
         self.pending_disconnect = {}
 
     def set_server(self, server):
@@ -94,6 +95,7 @@ class BaseManager:
             self.basic_leave_room(sid, namespace, room)
         if sid in self.callbacks:
             del self.callbacks[sid]
+        self.ack_counters.pop(sid, None)
         if namespace in self.pending_disconnect and \
                 sid in self.pending_disconnect[namespace]:
             self.pending_disconnect[namespace].remove(sid)
@@ -142,8 +144,10 @@ class BaseManager:
     def _generate_ack_id(self, sid, callback):
         """Generate a unique identifier for an ACK packet."""
         if sid not in self.callbacks:
-            self.callbacks[sid] = {0: itertools.count(1)}
-        id = next(self.callbacks[sid][0])
+            self.callbacks[sid] = {}
+        if sid not in self.ack_counters:
+            self.ack_counters[sid] = itertools.count(1)
+        id = next(self.ack_counters[sid])
         self.callbacks[sid][id] = callback
         return id
 
